@@ -53,8 +53,8 @@ theorem errors_are_concatenation (env : Env) (impl : FmtImpl) (cfg : Cfg) (rec :
     ∧ ∀ (f : (Str × Json) → Gen) (xs ys : List (Str × Json)),
         (seqG f xs none st).stop = .done →
         (seqG f (xs ++ ys) none st).errs
-          = (seqG f xs none st).errs ++ (seqG f ys none (seqG f xs none st).st).errs := by
-  sorry
+          = (seqG f xs none st).errs ++ (seqG f ys none (seqG f xs none st).st).errs :=
+  ⟨rfl, fun f xs ys h => seqG_append_errs f ys xs st h⟩
 
 /-- a reference-free evaluation neither depends on nor changes the resolver state beyond restoring
     the scope stack: the errors are the same from any two states with the same scope top -/
@@ -63,8 +63,8 @@ theorem reffree_state_independent (env : Env) (impl : FmtImpl) (d : Draft) (fc :
     (htop : st.scopes = st'.scopes) :
     (eval env impl (d.cfg fc) fuel i s b st).errs = (eval env impl (d.cfg fc) fuel i s b st').errs
     ∧ (eval env impl (d.cfg fc) fuel i s b st).stop = (eval env impl (d.cfg fc) fuel i s b st').stop
-    ∧ (eval env impl (d.cfg fc) fuel i s b st).st = st := by
-  sorry
+    ∧ (eval env impl (d.cfg fc) fuel i s b st).st = st :=
+  eval_stInd env impl d fc fuel i s hnr b st st' htop
 
 /-! ### one error per violation -/
 
@@ -73,13 +73,13 @@ theorem required_one_per_missing (cfg : Cfg) (hobj : lookupS (skey "object") cfg
     (rs : List Str) (ikvs : List (Str × Json)) (st : RState) :
     (kwRequired cfg (.arr (rs.map Json.str)) (.obj ikvs) none st).errs.length
       = (rs.filter fun r => !Json.hasKey r ikvs).length := by
-  sorry
+  rw [kwRequired_errs cfg hobj rs ikvs st, List.length_map]
 
 /-- array-form `dependencies`: one error per missing dependency of each present property -/
 theorem dependency_one_per_missing (ikvs : List (Str × Json)) (prop : Str) (ds : List Str) (st : RState) :
     (depArray ikvs prop (ds.map Json.str) none st).errs.length
       = (ds.filter fun r => !Json.hasKey r ikvs).length := by
-  sorry
+  rw [depArray_errs ikvs prop ds st, List.length_map]
 
 /-- `items` (single schema): the errors are the concatenation over ALL elements, in order, of each
     element's errors with its index prepended — a failing element never stops the loop -/
@@ -87,14 +87,14 @@ theorem items_all_elements (cfg : Cfg) (harr : lookupS (skey "array") cfg.types 
     (rec : Rec) (sub : Json) (hsub : sub.isArr = false) (xs : List Json) (st : RState)
     (hdone : ∀ x st, (rec x sub none st).stop = .done ∧ (rec x sub none st).st = st) :
     (kwItems cfg rec sub (.arr xs) none st).errs
-      = (enumFrom 0 xs).flatMap fun t => (rec t.2 sub none st).errs.map (·.consPath (.idx t.1)) := by
-  sorry
+      = (enumFrom 0 xs).flatMap fun t => (rec t.2 sub none st).errs.map (·.consPath (.idx t.1)) :=
+  kwItems_errs cfg harr rec sub hsub xs st hdone
 
 /-- `allOf`: the errors of every branch, in order -/
 theorem allOf_all_branches (rec : Rec) (ss : List Json) (i : Json) (st : RState)
     (hdone : ∀ s st, (rec i s none st).stop = .done ∧ (rec i s none st).st = st) :
     (kwAllOf rec (.arr ss) i none st).errs
-      = (enumFrom 0 ss).flatMap fun t => (rec i t.2 none st).errs.map (·.consSchemaPath (.idx t.1)) := by
-  sorry
+      = (enumFrom 0 ss).flatMap fun t => (rec i t.2 none st).errs.map (·.consSchemaPath (.idx t.1)) :=
+  kwAllOf_errs rec ss i st hdone
 
 end JS.Props.C05
